@@ -5,13 +5,17 @@ package deflate
 
 import (
 	"compress/flate"
+	"errors"
 	"io"
 )
 
+var errWriterClosed = errors.New("flate: closed writer")
+
 type Writer struct {
-	err error
-	lc  LevelCompressor
-	w   *flate.Writer
+	err    error
+	closed bool
+	lc     LevelCompressor
+	w      *flate.Writer
 }
 
 func NewWriterwWith4KWindow(under io.Writer, level int) (w *Writer, err error) {
@@ -71,8 +75,13 @@ func (w *Writer) Write(data []byte) (n int, err error) {
 	if w.err != nil {
 		return n, w.err
 	}
+	if w.closed {
+		return 0, errWriterClosed
+	}
 	if w.w != nil {
-		return w.w.Write(data)
+		n, err = w.w.Write(data)
+		w.err = err
+		return n, err
 	}
 	n = len(data)
 	var num int
@@ -92,6 +101,7 @@ func (w *Writer) Write(data []byte) (n int, err error) {
 
 func (w *Writer) Reset(under io.Writer) {
 	w.err = nil
+	w.closed = false
 	if w.w != nil {
 		w.w.Reset(under)
 		return
@@ -103,18 +113,29 @@ func (w *Writer) Flush() (err error) {
 	if w.err != nil {
 		return w.err
 	}
-	if w.w != nil {
-		return w.w.Flush()
+	if w.closed {
+		return errWriterClosed
 	}
-	return w.lc.Flush()
+	if w.w != nil {
+		w.err = w.w.Flush()
+	} else {
+		w.err = w.lc.Flush()
+	}
+	return w.err
 }
 
 func (w *Writer) Close() (err error) {
 	if w.err != nil {
 		return w.err
 	}
-	if w.w != nil {
-		return w.w.Close()
+	if w.closed {
+		return nil
 	}
-	return w.lc.Close()
+	if w.w != nil {
+		w.err = w.w.Close()
+	} else {
+		w.err = w.lc.Close()
+	}
+	w.closed = w.err == nil
+	return w.err
 }
